@@ -1,0 +1,22 @@
+//go:build verif
+// +build verif
+
+package parser
+
+// Assumed contracts of the generated ANTLR recogniser (consumed by /verif/govc; comment-only file).
+// The lexing / parsing / walking itself is modelled at the Walk call (see DESIGN.md, C10).
+
+//@ func NewgengineLexer
+//@   ensures fresh(result) && result != nil && result.BaseLexer != nil && result.BaseLexer.BaseRecognizer != nil
+//@   modifies nothing
+//@   trusted generated ANTLR recogniser (table-driven); outside contract reach
+
+//@ func NewgengineParser
+//@   ensures fresh(result) && result != nil && result.BaseParser != nil && result.BaseParser.BaseRecognizer != nil
+//@   modifies nothing
+//@   trusted generated ANTLR recogniser (table-driven); outside contract reach
+
+//@ func (*gengineParser).Primary
+//@   ensures true
+//@   modifies nothing
+//@   trusted generated ANTLR recogniser (table-driven); its effect on the error listeners is modelled at the Walk call
